@@ -10,7 +10,8 @@ RULE = ("random expression trees over BUFFER, NOT, AND, NAND, OR, NOR, XOR, XNOR
         "the returned model equals, as an exact multilinear polynomial, the Moebius transform of the truth table "
         "computed by a plain-Python evaluator of the same tree; model leaves are snapshotted. Non-trivial = tree of "
         "depth >= 2 whose function is not constant; distinct = digest of the tree description")
-TIERS = {"quick": {"shards": 8, "cases": 350}, "thorough": {"shards": 16, "cases": 10000}}
+TIERS = {"quick": {"shards": 8, "cases": 4000}, "thorough": {"shards": 16, "cases": 40000}}
+FLOOR_BASE = {"quick": 350, "thorough": 10000}    # case counts the floors below were calibrated for; the launcher scales them
 
 
 def FLOORS(tier):
